@@ -17,7 +17,12 @@ META = {
                   "hook consulted by the class lookup, never a constructor, at most one __new__, only builtins classes when instantiate_custom is off; "
                   "'no import unless import_custom is on' is proved for trees whose lookup consults module hooks only when importing is allowed (generated fact "
                   "load_lookup_mode; c09_no_import_without_switch) and REFUTED with a witness for a tree that uses getattr (c09_no_import_without_switch_refuted); "
-                  "under the default switches nothing is imported whatever the lookup form; the StopIteration fast path in both directions, non-disclosure of traceback/version; the loader's "
+                  "under the default switches nothing is imported whatever the lookup form; the attribute list of theorem 1 is what dump() sends: on a tree whose "
+                  "dump does not leave callables out it includes the repr text of public METHODS (add_note), which shadows them on the rebuilt object -- "
+                  "c09_methods_not_shadowed holds under the generated fact dump_skips_callables, c09_methods_not_shadowed_refuted otherwise; every loader failure "
+                  "(before or after the object exists: TypeError/ValueError/UnicodeError/AttributeError, never EOFError) reaches the request under the delivering "
+                  "_dispatch; c09_tie asserts the repairs the tree carries (delivering dispatch, guarded module hooks, guarded fast path, _send_exc fallback form, "
+                  "REMOTE_LINE constants); the StopIteration fast path in both directions, non-disclosure of traceback/version; the loader's "
                   "import guard and class-resolution ladder, the dump normalisation facts and the _box_exc/_unbox_exc plumbing are regenerated from the "
                   "source on every run and tied by reflexivity; the extracted model is compared with the real code on every built-in class of the running "
                   "interpreter, custom classes (imported / importable / unknown / served lazily by a hooked module) and hostile payloads. Proof is the right level: the property quantifies "
@@ -25,7 +30,10 @@ META = {
     "level_note": "Trusted: Coq kernel, pygen, extraction + driver, harness. CPython's own behaviour is environment: dir()/getattr/repr on the sender, "
                   "the builtins namespace / sys.modules / import machinery, BaseException.__new__, setattr on exception objects (the model returns the "
                   "setattr instructions, the harness executes them on a fresh object of the same base class). Outside: text of tracebacks, classes whose "
-                  "__new__ needs arguments (reported by the oracle when built in), frozenset iteration order inside hostile records (unmodelled). "
+                  "__new__ needs arguments (reported by the oracle when built in), frozenset iteration order inside hostile records (unmodelled); "
+                  "the model takes repr() of every object as a total text and dumpable() as terminating: exceptions whose arguments/attributes have a raising "
+                  "repr or are nested beyond the recursion limit are outside the theorems (serve_exc is total) and covered by the harness only (the _send_exc "
+                  "fallback must answer with the failure's class); failures of CPython's setattr on the new object are outside the model's Fail. "
                   "Code of already imported modules that runs on attribute access is modelled only as the PEP 562 module hook (its imports and the class it "
                   "returns); importlib LazyLoader modules, module subclasses with properties, sys.modules entries that are not modules and hooks raising "
                   "something other than AttributeError are outside.",
@@ -636,19 +644,20 @@ def check_delivery(ctx, case, descr, obs):
     is the request's exception and nothing escapes (EOFError excepted); on a tree that unboxes inline it escapes _dispatch"""
     if obs["raised"] is None:
         return
-    D = gen_facts().get("dispatch_delivers_rebuild_failure", "false") == "true"
     e = obs["raised"]
     ctx.model_traces += 1
-    if D and not isinstance(e, EOFError):
-        if obs["escaped"] is not None or not obs["delivered_failure"] or obs["left_registered"]:
-            ctx.violation("rebuild-failure-not-delivered-to-request", case,
-                          observed={"escaped": short(obs["escaped"]), "delivered": short(obs.get("delivered_obj", None)), "callback_left": obs["left_registered"]},
-                          expected="the request's callback receives %s as its exception; nothing escapes _dispatch" % type(e).__name__,
-                          what="a response that cannot be rebuilt must fail the request it answers [" + descr + "]")
-    else:
-        if obs["escaped"] is not e:
-            ctx.tie_broken("correspondence:dispatch-delivery", "%s: model: %s escapes _dispatch; impl escaped=%s delivered=%s"
-                           % (descr, type(e).__name__, short(obs["escaped"]), obs["delivered_failure"]))
+    if isinstance(e, EOFError):
+        return
+    # a non-EOF failure of the loader must never escape _dispatch, whatever the tree says about itself
+    if obs["escaped"] is not None or not obs["delivered_failure"] or obs["left_registered"]:
+        ctx.violation("rebuild-failure-not-delivered-to-request", case,
+                      observed={"escaped": short(obs["escaped"]), "delivered": short(obs.get("delivered_obj", None)), "callback_left": obs["left_registered"]},
+                      expected="the request's callback receives %s as its exception; nothing escapes _dispatch" % type(e).__name__,
+                      what="a response that cannot be rebuilt must fail the request it answers [" + descr + "]")
+    D = gen_facts().get("dispatch_delivers_rebuild_failure", "false") == "true"
+    if D != (obs["escaped"] is None):
+        ctx.tie_broken("correspondence:dispatch-delivery", "%s: generated fact delivers=%s; impl escaped=%s delivered=%s"
+                       % (descr, D, short(obs["escaped"]), obs["delivered_failure"]))
 
 
 def base_of(obj):
@@ -734,6 +743,39 @@ def oracle_genuine(ctx, case, exc, expect, sf, rf, obs, tbtext, descr):
             if g is MISSING or canon(g) != canon(v):
                 bad("%s-attr-mismatch" % grp, "immutable public data attribute %r differs" % n, short(g) if g is not MISSING else "<missing>", short(v))
                 return
+        # --- "ordinary except-clauses work": methods stay methods, nothing but the original's public names appears, str() works
+        if isinstance(got, BaseException):
+            for n in sorted(dir(exc)):
+                if n.startswith("_"):
+                    continue
+                try:
+                    v = getattr(exc, n)
+                except AttributeError:
+                    continue
+                if callable(v) and callable(getattr(type(got), n, None)) and not callable(getattr(got, n, None)):
+                    bad("method-replaced-by-text", "public method %r of the original is no longer callable on the rebuilt exception (its repr was sent as a data "
+                        "attribute and set on the instance)" % n, __import__("re").sub(r"0x[0-9a-f]+", "0x..", short(getattr(got, n, None), 80)), "a callable")
+                    break
+            extra = sorted(k for k in vars(got) if not k.startswith("_") and k not in dir(exc))
+            if extra:
+                bad("new-public-attribute", "the rebuilt exception has public attributes the original does not have", extra, [])
+                return
+            rtb0 = getattr(got, "_remote_tb", None)
+            if isinstance(rtb0, str):
+                b0 = base_of(got)
+                try:
+                    head = b0.__str__(got)
+                except Exception:
+                    head = "<Unprintable exception>"
+                want = head + "\n\n========= Remote Traceback (%d) =========\n" % (rtb0.count("\n\n========= Remote Traceback ") + 1) + rtb0
+                try:
+                    text = str(got)
+                except Exception as ex:
+                    text = "<str() raised %s: %s>" % (type(ex).__name__, ex)
+                if text != want:
+                    bad("str-of-rebuilt-exception", "str() of the rebuilt exception is not the class's own text followed by the remote traceback banner and text",
+                        short(text, 160), short(want, 160))
+                    return
         # --- disclosure
         rtb = getattr(got, "_remote_tb", MISSING)
         rver = getattr(got, "_remote_version", MISSING)
@@ -799,7 +841,7 @@ def exc_sx(exc, typ):
 
 def obj_sx(v):
     sx = to_sx(v)
-    return [sx, [] if plain_sx(sx) else cps(repr(v))]
+    return [sx, [] if plain_sx(sx) else cps(repr(v)), callable(v)]
 
 
 def py_of_rcls(fx, rc):
@@ -933,6 +975,7 @@ def gen_facts():
             pass
         _facts.setdefault("load_lookup_mode", "LkGetattr")
         _facts.setdefault("fast_path_noargs_only", "false")
+        _facts.setdefault("dump_skips_callables", "false")
     return _facts
 
 
@@ -950,6 +993,57 @@ def make_builtin_case(case):
     cls = getattr(builtins, case["cls"])
     exc = build_exception(r, cls, case["variant"])
     return exc
+
+
+class BadRepr(object):
+    """an argument / attribute value whose repr raises: vinegar.dump cannot normalise it, _send_exc must report that failure instead"""
+
+    def __repr__(self):
+        raise RuntimeError("no repr")
+
+
+def deep_tuple(n):
+    t = ()
+    for _ in range(n):
+        t = (t,)
+    return t
+
+
+FALLBACK_HOW = {"arg-repr-raises": RuntimeError, "attr-repr-raises": RuntimeError, "arg-too-deep": RecursionError}
+
+
+def run_fallback_case(ctx, fx, case):
+    """SCOPE: the property's normalisation needs repr() of a non-immutable item to be total and brine.dumpable() to terminate; for an
+    exception outside that, the serving side must still answer the request with ONE exception frame, carrying the failure it met
+    (Connection._send_exc fallback) -- the requester then catches that failure's class"""
+    cls, how, sf, rf = getattr(builtins, case["cls"]), case["how"], case["sf"], case["rf"]
+    try:
+        if how == "arg-repr-raises":
+            exc = cls("x", BadRepr())
+        elif how == "attr-repr-raises":
+            exc = cls("x")
+            exc.blob = BadRepr()
+        else:
+            exc = cls(deep_tuple(3000))
+    except Exception:
+        ctx.count("skipped:unconstructible")
+        return
+    descr = "fallback %s(%s) sf=%s rf=%s" % (cls.__name__, how, sf, rf)
+    ctx.count("fallback:" + how)
+    ctx.case(("f", cls.__name__, how, tuple(sf), tuple(rf)), nontrivial=True, sample={"raise": descr})
+    want = FALLBACK_HOW[how]
+    st, wire, _ = serve_exception(fx, exc, sf)
+    if st != "sent":
+        ctx.violation("dump-failure-fallback-fails:" + (C.exc_enum(wire) if isinstance(wire, BaseException) else str(st)), case,
+                      observed="%s %s" % (st, short(wire, 160)), expected="one MSG_EXCEPTION frame carrying the %s met while dumping" % want.__name__,
+                      what="an exception whose payload cannot be dumped must still be answered (with the dump failure) [" + descr + "]")
+        return
+    obs = receive(fx, wire, rf)
+    got = obs["caught"]
+    if obs["raised"] is not None or got is None or base_of(got) is not want:
+        ctx.violation("dump-failure-not-reported", case, observed=short(obs["raised"] if obs["raised"] is not None else got, 160),
+                      expected="requester catches " + want.__name__, what="the failure met while dumping the exception did not arrive as itself [" + descr + "]")
+    oracle_effects(ctx, case, rf, obs, [], [], descr)
 
 
 def twin(modname, clsname, base=Exception):
@@ -980,11 +1074,15 @@ def make_custom_case(fx, case):
 def run_cases(ctx, fx, cases, model):
     """cases: list of dicts (JSON-serialisable). phases: sender half for all, model 'serve' batch, requester half, model 'load' batch."""
     P = gen_param()
+    SKIPC = gen_facts()["dump_skips_callables"] == "true"
     MODE = gen_mode()
     stage = []
     for case in cases:
         fx.unload_lazy()
         kind = case["kind"]
+        if kind == "fallback":
+            run_fallback_case(ctx, fx, case)
+            continue
         if kind == "hostile":
             payload = from_sx(C.sx_loads(case["payload_sx"]))
             try:
@@ -1000,7 +1098,7 @@ def run_cases(ctx, fx, cases, model):
             ctx.count("skipped:unconstructible")
             continue
         sf = case["sf"]
-        sx_in = ["serve", P, list(sf), cps(VERSION), None, exc_sx(exc, type(exc))]
+        sx_in = ["serve", [P, SKIPC], list(sf), cps(VERSION), None, exc_sx(exc, type(exc))]
         st, wire, tbtext = serve_exception(fx, exc, sf)
         if st == "sender-error":
             # the serving side failed to report the exception at all: that is the property's first clause failing, not a skipped case
@@ -1159,6 +1257,12 @@ def generate(ctx):
                           ("SystemExit", "special"), ("KeyboardInterrupt", "none"), ("UnicodeDecodeError", "special")):
         for sf in ((1, 1, 0, 1), (0, 0, 0, 0), (1, 0, 1, 1)):
             cases.append({"kind": "builtin", "cls": name, "variant": variant, "seed": r.getrandbits(48), "sf": list(sf), "rf": [0, 0, 0]})
+    # exceptions the sender cannot normalise (repr raises / nesting too deep): the _send_exc fallback
+    names = builtin_exception_names()
+    for how in sorted(FALLBACK_HOW):
+        for name in ["KeyError", "ValueError", "OSError", "StopIteration"] + [r.choice(names) for _ in range(4 if ctx.quick else 40)]:
+            sf = r.choice(SF_ALL)
+            cases.append({"kind": "fallback", "cls": name, "how": how, "sf": [sf[0], sf[1], 0, 0], "rf": list(r.choice(RF_ALL))})
     n_custom = 6 if ctx.quick else 60
     for mod in (LOADED, LAZY, LAZY2, NOSUCH, "harness.C09", "builtins", HOOK):
         # "ValueError"/"OSError" outside builtins: a custom class that merely shares its name with a built-in one
